@@ -537,14 +537,17 @@ func (m *RModel) callRValue(fn RValue, in []Value) []Value {
 		for i := range args {
 			boxed[i] = box(sig.Params().At(i).Type(), args[i])
 		}
-		return m.invokeMakeFunc(f, boxed)
+		if outs := m.invokeMakeFunc(f, boxed); len(outs) > 0 {
+			return outs
+		}
+		return nil // reflect.Value.Call returns a nil slice for a function without results
 	default:
 		panic(abortPath{fmt.Sprintf("callRValue: %T", f)})
 	}
 	n := sig.Results().Len()
 	switch n {
 	case 0:
-		return []Value{}
+		return nil // as reflect.Value.Call does
 	case 1:
 		return []Value{box(sig.Results().At(0).Type(), res)}
 	}
